@@ -4,7 +4,7 @@
 # `float32_t` and `int`; drafts/Fnew_C16_threshold_float32_channel_compile.patch).  A TU that does not build
 # makes the driver stop with BUILD-ERROR, so harness/c16_thr_f32.cpp is only run when this switch is True.
 # Set it to True once that patch (or an equivalent fix) is in /repo.
-_C16_FLOAT32_T_CHANNEL_COMPILES = False
+_C16_FLOAT32_T_CHANNEL_COMPILES = True
 
 _c16_thr_deps = ['harness/c16_common.hpp', 'harness/c16_threshold.hpp']
 _c16_q_otsu = dict(P=4, PC=1, CONST16=0)
